@@ -159,3 +159,34 @@ def _(u):
     obj2 = u.obj(BLP, "RolloutBaseline", bl_alpha=0.05, policy="p")
     st2 = u.run(BLP, "RolloutBaseline.__getstate__", selfobj=obj2, record=False)
     u.prove("getstate.without-dataset", sorted(st2.keys()) == ["bl_alpha", "policy"])
+
+
+@unit("env.base.wrappers", file=BASE, func="RL4COEnvBase.get_reward", props=("C03", "C06", "C19", "C17"))
+def _(u):
+    # glue of every environment: get_reward = (validity check when enabled, on the same state and actions) then _get_reward;
+    # step = _step wrapped as {"next": state}; dataset(phase) = generated instances, or the file of THAT phase loaded through
+    # load_data, always wrapped in the environment's dataset class
+    B = u.dim("B")
+    acts = u.tensor("actions", (B, 3), "i")
+    td = SymTD({"x": u.tensor("x", (B, 2), "f")}, (B,))
+    rew = u.tensor("reward", (B,), "f")
+    log = []
+    for chk in (True, False):
+        log.clear()
+        env = u.obj(BASE, "RL4COEnvBase", check_solution=chk, check_solution_validity=lambda t, a: log.append(("check", t, a)),
+                    _get_reward=lambda t, a: (log.append(("reward", t, a)), rew)[1])
+        r = u.run(BASE, "RL4COEnvBase.get_reward", td, acts, selfobj=env, record=False)
+        want = ["check", "reward"] if chk else ["reward"]
+        u.prove(f"get_reward.check={chk}", r is rew and [x[0] for x in log] == want and all(x[1] is td and x[2] is acts for x in log))
+    env = u.obj(BASE, "RL4COEnvBase", _torchrl_mode=False, _step=lambda t: (log.append(("step", t)), t)[1])
+    out = u.run(BASE, "RL4COEnvBase.step", td, selfobj=env, record=False)
+    u.prove("step.wraps-next", isinstance(out, dict) and list(out.keys()) == ["next"] and out["next"] is td)
+    # dataset
+    made = []
+    gen_td, file_td = u.ns(tag="generated"), u.ns(tag="loaded")
+    env = u.obj(BASE, "RL4COEnvBase", generator=lambda bs: (made.append(("generate", bs)), gen_td)[1], load_data=lambda f, bs: (made.append(("load", f, bs)), file_td)[1],
+                dataset_cls=lambda t: ("dataset", t), train_file=None, val_file="val.npz", test_file=None)
+    d1 = u.run(BASE, "RL4COEnvBase.dataset", [64], "train", selfobj=env, record=False)
+    d2 = u.run(BASE, "RL4COEnvBase.dataset", [32], "val", selfobj=env, record=False)
+    u.prove("dataset.train-generated", d1 == ("dataset", gen_td) and made[0] == ("generate", [64]))
+    u.prove("dataset.val-loaded-from-its-own-file", d2 == ("dataset", file_td) and made[1][0] == "load" and made[1][1] == "val.npz" and made[1][2] == [32])
